@@ -2,6 +2,7 @@ import Verif.Props.C07
 import Verif.Props.C06
 import Verif.Props.C05
 import Verif.Props.C18
+import Verif.Proofs.C09Json
 /-!
 # C09 — accepted input yields syntactically valid output that is accepted again
 
@@ -24,6 +25,20 @@ theorem json_valid_and_reaccepted (o : JsonOpts) (num : List Char → Int → Li
   refine ⟨_, _, h1, rfl, hw1, Verif.Props.C07.parse_render _ hw1 noWs, ?_⟩
   obtain ⟨h2, hw2, _⟩ := Verif.Props.C07.C07_shape o num hg _ hw1 noWs
   exact ⟨_, _, h2, rfl, hw2⟩
+
+/-- **JSON, second pass is the identity** where the number writer reproduces its own outputs (`NumFix`: checked on the real
+    code at precision 0 by stage `c09-json-fixpoint`; trivially true with `KeepNumbers`, see `json_numfix_keep`): for every
+    well-formed value, decoration and option set the output of the first pass is mapped to itself by the second. -/
+theorem json_second_pass_fixed : type_of% @Verif.Proofs.C09Json.json_second_pass_fixed :=
+  @Verif.Proofs.C09Json.json_second_pass_fixed
+
+/-- `NumFix` holds for every number writer when numbers are kept -/
+theorem json_numfix_keep : type_of% @Verif.Proofs.C09Json.numFix_keep := @Verif.Proofs.C09Json.numFix_keep
+
+/-- idempotence is NOT claimed for `Precision > 0`: for the C08 model of `minify.Number`, `-67E-1` ↦ `-6.7` ↦ `-7` at
+    precision 1 (the first pass does not round a lexeme with an exponent) -/
+theorem json_numfix_precision_counterexample : type_of% @Verif.Proofs.C09Json.numFix_precision_counterexample :=
+  @Verif.Proofs.C09Json.numFix_precision_counterexample
 
 /-- **XML**: for every option set and every token stream of the lexer grammar, every emitted token is well-formed
     (no `<`, no bare `&`, quote-safe attribute literals) and no run of emitted character data contains `]]>`
